@@ -17,7 +17,7 @@ import (
 
 const c07Foreign = "Emoji"
 
-var c07Entries = []string{"registry", "json-top", "json-item", "json-list", "json-list-after-unknown", "gob-top", "gob-nested"}
+var c07Entries = []string{"registry", "json-top", "json-item", "json-list", "json-list-after-unknown", "gob-top", "gob-nested", "json-typeonly", "gob-top-typeonly", "gob-nested-typeonly"}
 
 // marker properties written into the document / value for one vocabulary name
 type c07Markers struct {
@@ -279,6 +279,38 @@ func c07Produce(entry, name string, ti vocab.TypeInfo, known bool) (it ap.Item, 
 			}
 		}
 		return nil, nil
+	case "json-typeonly", "gob-top-typeonly", "gob-nested-typeonly":
+		// a value that says nothing but its type ({"type":"Travel"}): the type alone must carry it through both codecs
+		p := reflect.New(vocab.StructType(ti.GoType))
+		p.Elem().FieldByName("Type").SetString(name)
+		bare := p.Interface().(ap.Item)
+		switch entry {
+		case "json-typeonly":
+			b, err := ap.MarshalJSON(bare)
+			if err != nil {
+				return nil, fmt.Errorf("encode: %v", err)
+			}
+			return ap.UnmarshalJSON(b)
+		case "gob-top-typeonly":
+			b, err := ap.GobEncode(bare)
+			if err != nil {
+				return nil, fmt.Errorf("encode: %v", err)
+			}
+			return ap.GobDecode(b)
+		}
+		b, err := ap.GobEncode(&ap.Object{ID: "https://example.com/outer", Type: ap.NoteType, Attachment: bare})
+		if err != nil {
+			return nil, fmt.Errorf("encode: %v", err)
+		}
+		outer, err := ap.GobDecode(b)
+		if err != nil || outer == nil {
+			return nil, fmt.Errorf("outer value: %v", err)
+		}
+		o, ok := outer.(*ap.Object)
+		if !ok {
+			return nil, fmt.Errorf("outer value is %T", outer)
+		}
+		return o.Attachment, nil
 	case "gob-top":
 		b, err := ap.GobEncode(c07Value(name, ti))
 		if err != nil {
@@ -307,7 +339,7 @@ func TestC07(t *testing.T) {
 	r := ev.Open(t, "C07")
 	defer r.Close(t)
 	r.Rule("exhaustive: every vocabulary type name of the ground-truth table (written from the ActivityStreams vocabulary), the generic names, the empty name and three names outside the vocabulary " +
-		"x {registry, JSON top level, JSON nested in an item property, JSON nested in a list, the same behind a sibling of a type outside the vocabulary, gob top level, gob nested} x {hooks unset, hooks set}. Oracle: concrete Go type == ground truth; decoded id + one " +
+		"x {registry, JSON top level, JSON nested in an item property, JSON nested in a list, the same behind a sibling of a type outside the vocabulary, gob top level, gob nested, and a value that says nothing but its type through JSON, gob top level and gob nested} x {hooks unset, hooks set}. Oracle: concrete Go type == ground truth; decoded id + one " +
 		"object-core marker + one type-specific marker; family list predicates, IsObject/IsLink/IsCollection and the family's On helper agree with the vocabulary's family; outside the vocabulary without hooks: " +
 		"error, nothing or the untyped *Object fallback; with hooks: identical outcome for vocabulary names. non-trivial = cell with a vocabulary name; distinct by cell")
 	r.Note("only_enumerated_layers", true)
@@ -349,7 +381,7 @@ func TestC07(t *testing.T) {
 	for _, hooks := range []string{"unset", "set"} {
 		for _, nc := range names {
 			for _, entry := range c07Entries {
-				if (entry == "gob-top" || entry == "gob-nested") && !nc.known {
+				if (strings.HasPrefix(entry, "gob-") || entry == "json-typeonly") && !nc.known {
 					continue // a gob stream "bearing that type" needs a value of a known Go type to be encoded from
 				}
 				total++
@@ -369,7 +401,7 @@ func TestC07(t *testing.T) {
 					it, err = c07Produce(entry, nc.name, nc.ti, nc.known)
 					if nc.known && err == nil && !vocab.IsEmptyItem(it) {
 						fam = c07Family(it, nc.name, nc.ti)
-						if entry != "registry" {
+						if entry != "registry" && !strings.HasSuffix(entry, "typeonly") {
 							marker = c07CheckMarkers(it, nc.name, nc.ti)
 						}
 					}
